@@ -4,6 +4,7 @@
 EXTENDS MutexV2, Json, IOUtils, TLCExt
 T == {1, 2, 3}
 A == 1..6
+TpOn == TRUE
 ScnSeq == JsonDeserialize(IOEnv.SCENARIOS)
 Scn == {ScnSeq[i] : i \in 1..Len(ScnSeq)}
 EdgeLog ==
